@@ -48,6 +48,6 @@ inductive Outcome (α : Type) where
   | ok (a : α)
   | err (c : Cat)
   | panic (why : String)
-deriving Repr
+deriving Repr, DecidableEq
 
 end Rio
